@@ -30,6 +30,9 @@ CONSTANTS
                 \*   noKeep   : requests whose response forbids reuse (Connection: close, HTTP/1.0,
                 \*              close-delimited body)
                 \*   dev      : the deviations switched on (set from the constant Deviations)
+                \*   threads  : FALSE = the async pool (tasks interleave at awaits only);
+                \*              TRUE  = the synchronous pool shared by threads (they interleave at
+                \*              every lock operation and network operation, _sync/*.py)
   None,
   NoExpiry,
   NoTimeout,
@@ -85,6 +88,7 @@ Expiry   == cfg.expiry
 PoolTO   == cfg.poolTO
 Mux      == cfg.mux
 MuxGuess == cfg.muxGuess
+Threads  == cfg.threads
 
 SeqToSet(s) == {s[i] : i \in DOMAIN s}
 SeqRemove(s, x) == SelectSeq(s, LAMBDA y : y # x)
@@ -254,10 +258,18 @@ Init == cfg \in {[c EXCEPT !.dev = Deviations] : c \in Cfgs} /\ InitRest
 (* Caller arrives: enqueue (pool 218-221) and run a pass (225-229).        *)
 (***************************************************************************)
 CallW(r, S) ==
-  /\ pc[r] = "init" /\ ~pclosed
+  /\ pc[r] = "init" /\ ~pclosed /\ ~Threads
   /\ ApplyPass(r, S, Append(queue, r), "wait", pc)
   /\ UNCHANGED <<cfg, cmux, cexp, cdead, cerr, cstr, ccnt, cexch, cwire, exc, creq, sent, got, wdl, clock, budget, pclosed>>
 Call(r) == CallW(r, PassResult(Append(queue, r), asg, cst))
+
+(* Threads: appending to the queue (pool 218-221) and the first pass (225-229) are two
+   critical sections of the pool lock; other threads run in between *)
+Enqueue(r) ==
+  /\ pc[r] = "init" /\ ~pclosed /\ Threads
+  /\ queue' = Append(queue, r)
+  /\ pc' = [pc EXCEPT ![r] = "queued"]
+  /\ UNCHANGED <<cfg, pool, nextc, cvars, evicted, asg, tocl, nxt, exc, creq, sent, got, wdl, clock, budget, pclosed>>
 
 (* close one connection evicted by r's own pass (pool 341-345, shielded) *)
 CloseEvicted(r) ==
@@ -371,23 +383,37 @@ EstabFail(r) ==
 (***************************************************************************)
 Activate(r) ==
   /\ pc[r] = "gate"
-  /\ LET c == asg[r] IN
-     IF \/ ~cmux[c] /\ cst[c] \in {"new", "idle"}
-        \/ cmux[c] /\ cst[c] \in {"active", "idle"}
-     THEN /\ cst' = [cst EXCEPT ![c] = "active"]
-          /\ ccnt' = [ccnt EXCEPT ![c] = @ + 1]
-          /\ cexp' = [cexp EXCEPT ![c] = NoExpiry]
-          /\ cexch' = [cexch EXCEPT ![c] = IF cmux[c] THEN @ ELSE "req"]
-          /\ pc' = [pc EXCEPT ![r] = "send"]
-          /\ UNCHANGED <<cfg, asg>>
-     ELSE \* ConnectionNotAvailable: keep the queue position, forget the connection, new pass
-          /\ pc' = [pc EXCEPT ![r] = "retry"]
-          /\ asg' = [asg EXCEPT ![r] = None]
-          /\ UNCHANGED <<cfg, cst, ccnt, cexp, cexch>>
+  /\ LET c == asg[r]
+         open == \/ ~cmux[c] /\ cst[c] \in {"new", "idle"}
+                 \/ cmux[c] /\ cst[c] \in {"active", "idle"}
+     IN
+     \/ \* intended: a connection that a pass has already taken out of the pool (its close is
+        \* pending) refuses new requests.  DEVIATION ActivateEvicted (the code): it accepts, and
+        \* is then closed under the request by whoever evicted it
+        /\ open /\ (c \notin evicted \/ Dev("ActivateEvicted"))
+        /\ cst' = [cst EXCEPT ![c] = "active"]
+        /\ ccnt' = [ccnt EXCEPT ![c] = @ + 1]
+        /\ cexp' = [cexp EXCEPT ![c] = NoExpiry]
+        /\ cexch' = [cexch EXCEPT ![c] = IF cmux[c] THEN @ ELSE "req"]
+        /\ pc' = [pc EXCEPT ![r] = "send"]
+        /\ UNCHANGED <<cfg, asg>>
+     \/ \* ConnectionNotAvailable: keep the queue position, forget the connection, new pass.
+        \* Threads: the refusal is decided under the connection's state lock, the request
+        \* forgets the connection later (pool 244, outside any lock)
+        /\ ~open \/ c \in evicted
+        /\ IF Threads THEN pc' = [pc EXCEPT ![r] = "refused"] /\ UNCHANGED asg
+                      ELSE pc' = [pc EXCEPT ![r] = "retry"] /\ asg' = [asg EXCEPT ![r] = None]
+        /\ UNCHANGED <<cfg, cst, ccnt, cexp, cexch>>
   /\ UNCHANGED <<cfg, pool, nextc, corg, cmux, cdead, cerr, cstr, cwire, evicted, queue, tocl, nxt, exc, creq, sent, got, wdl, clock, budget, pclosed>>
 
+Requeue(r) ==
+  /\ pc[r] = "refused"
+  /\ pc' = [pc EXCEPT ![r] = "retry"]
+  /\ asg' = [asg EXCEPT ![r] = None]
+  /\ UNCHANGED <<cfg, pool, nextc, cvars, evicted, queue, tocl, nxt, exc, creq, sent, got, wdl, clock, budget, pclosed>>
+
 RetryW(r, S) ==
-  /\ pc[r] = "retry"
+  /\ pc[r] \in {"retry", "queued"}
   /\ ApplyPass(r, S, queue, "wait", pc)
   /\ UNCHANGED <<cfg, cmux, cexp, cdead, cerr, cstr, ccnt, cexch, cwire, exc, creq, sent, got, wdl, clock, budget, pclosed>>
 Retry(r) == RetryW(r, PassResult(queue, asg, cst))
@@ -496,6 +522,14 @@ OpFail(r) ==
   /\ budget' = budget - 1
   /\ UNCHANGED <<cfg, pool, nextc, cvars, evicted, queue, asg, tocl, nxt, creq, sent, got, wdl, clock, pclosed>>
 
+(* the connection was closed under the request by somebody else (an evicting pass, or
+   pool.close()): the next network operation fails *)
+Collateral(r) ==
+  /\ pc[r] \in InExchange /\ cst[asg[r]] = "closed"
+  /\ pc' = [pc EXCEPT ![r] = "rel"]
+  /\ exc' = [exc EXCEPT ![r] = "fail"]
+  /\ UNCHANGED <<cfg, pool, nextc, cvars, evicted, queue, asg, tocl, nxt, creq, sent, got, wdl, clock, budget, pclosed>>
+
 (* scope-style cancellation is level triggered: requested once, delivered at the next
    unshielded suspension point *)
 CancelRequestS(r, style) ==
@@ -595,8 +629,9 @@ Internal(r) ==
   \/ CloseEvicted(r) \/ StartWait(r) \/ Wake(r) \/ PoolTimeout(r) \/ Enter(r) \/ ReqLock(r)
   \/ ConnectOk(r) \/ Established(r) \/ Activate(r) \/ Retry(r) \/ Send(r) \/ RecvHead(r) \/ ReadAll(r)
   \/ ConnRelease(r) \/ Leave(r) \/ CancelDeliver(r) \/ ReleaseStream(r) \/ NativeCancelInShield(r)
+  \/ Requeue(r) \/ Collateral(r)
 
-Env(r) == Call(r) \/ ConnectFail(r) \/ EstabFail(r) \/ OpFail(r) \/ CancelRequest(r) \/ Abandon(r)
+Env(r) == Call(r) \/ Enqueue(r) \/ ConnectFail(r) \/ EstabFail(r) \/ OpFail(r) \/ CancelRequest(r) \/ Abandon(r)
 
 Terminated == (\A r \in Req : pc[r] \in Terminal) /\ UNCHANGED vars
 
@@ -611,7 +646,7 @@ Spec == Init /\ [][Next]_vars
 
 (* fairness: the program runs, the network completes what was started; faults, cancellations
    and abandonment are not forced *)
-FairSpec == Spec /\ \A r \in Req : WF_vars(Internal(r)) /\ WF_vars(Call(r)) /\ WF_vars(Tick)
+FairSpec == Spec /\ \A r \in Req : WF_vars(Internal(r)) /\ WF_vars(Call(r)) /\ WF_vars(Enqueue(r)) /\ WF_vars(Tick)
 
 -----------------------------------------------------------------------------
 (***************************************************************************)
@@ -653,6 +688,11 @@ NoServiceableWaiter ==
 OwnResponse == \A r \in Req : got[r] \in {None, r}
 ReuseGate   == \A c \in Conn : (cst[c] = "idle" /\ ~cmux[c]) => (cexch[c] = "clean" /\ cwire[c] = <<>>)
 
+(* C08: nobody's connection is closed under it by what somebody ELSE did to the pool
+   (closing the whole pool is the caller's own doing) *)
+NoCollateral ==
+  \A r \in Req : (pc[r] \in InExchange /\ ~pclosed) => cst[asg[r]] # "closed"
+
 (* C14 *)
 AtMostOnce == \A r \in Req : Cardinality(sent[r]) <= 1
 
@@ -670,7 +710,7 @@ NoStaleUse ==
 Progress == \A r \in Req : (pc[r] # "init") ~> (pc[r] \in Terminal)
 
 (* the algorithmic pass implements the declarative relation *)
-PassStep(r) == pc[r] \in {"init", "retry", "leave"} /\ pc'[r] # pc[r]
+PassStep(r) == pc[r] \in {"init", "retry", "queued", "leave"} /\ pc'[r] # pc[r] /\ pc'[r] # "queued"
 PassImplementsRel ==
   [][\A r \in Req : PassStep(r) =>
         LET Q2 == queue' IN
@@ -684,7 +724,7 @@ PoolTimeoutExact ==
 
 (* C14: a request that is re-queued after a connection refused it had written nothing there *)
 RetryOnlyUnsent ==
-  [][\A r \in Req : (pc[r] = "gate" /\ pc'[r] = "retry") => asg[r] \notin sent[r]]_vars
+  [][\A r \in Req : (pc[r] = "gate" /\ pc'[r] \in {"retry", "refused"}) => asg[r] \notin sent[r]]_vars
 
 (* C09: an idle connection is activated only if it is not stale *)
 StateConstraint == TRUE
